@@ -22,6 +22,8 @@ structure Th where
   val : String
   stage : String     -- summoned | vigil | draining | done
   gen : Nat
+  /-- a Delete request with a second key, handled after the first one (which may have ended the instance) -/
+  key2 : String := ""
 
 structure DSt where
   cfg : Cfg
@@ -42,6 +44,11 @@ structure DSt where
   ackDel : List String
   /-- a stale close callback removed a fresh instance from the map -/
   orphaned : Bool := false
+  /-- fact: DeleteTreasure refuses to work on an instance that has been closed / destroyed and the gateway deletes the
+      remaining keys of the request on the instance that is mapped then -/
+  delChecksClosed : Bool := true
+  /-- a delete was acknowledged on a closed instance (nothing reached the file) -/
+  deadDelete : Bool := false
   /-- mode stop: GracefulStop has returned (the data directory was copied at that instant) -/
   stopped : Option Nat := none
 
@@ -113,10 +120,39 @@ def showKeys (m : List RecV) : String :=
 
 def idOf (n : String) : Nat := match n with | "A" => 1 | "B" => 2 | "C" => 3 | "D" => 4 | "E" => 5 | "W" => 6 | _ => 7
 
+/-- a synchronous Delete of one key on whatever instance is mapped (summon, delete, auto-destroy when it was the last) -/
+def delSync (d : DSt) (k : String) : DSt × String :=
+  if !d.s.live && d.fileV.isEmpty then (d, "NOT_FOUND") else
+  let t := d.next
+  match acts d (summonActs d t) with
+  | none => (d, "hang")
+  | some d1 =>
+    let g := (d1.s.th t).gen
+    let (d2, st) := delV d1 g k
+    match act d2 (.del t (keyNum k)) with
+    | none => (d, "ERR")
+    | some d3 =>
+      match (if (d3.s.th t).pc == 4 then destroyFin d3 t else act d3 (.cease t)) with
+      | some d4 => ({ d4 with next := t + 1 }, st)
+      | none => (d, "hang")
+
+/-- the second key of a two-key Delete request whose first key ended the instance the request holds -/
+def delSecond (d : DSt) (t : Th) : DSt × String :=
+  if t.key2 == "" then (d, "") else
+  if d.delChecksClosed then
+    let (d1, st) := delSync d t.key2
+    (d1, "," ++ st)
+  else
+    -- it keeps deleting on the instance it holds: acknowledged there, nothing reaches the file
+    let m := memOf d t.gen
+    if m.any (·.key == t.key2) then
+      ({ setMem d t.gen (m.filter (·.key != t.key2)) with ackDel := d.ackDel ++ [t.key2], deadDelete := true }, ",DELETED")
+    else (d, ",NOT_FOUND")
+
 def step (d : DSt) (line : String) : DSt × String :=
   match words line with
   | ["case", _, _, _] =>
-    ({ d with s := init [], gens := [], fileV := [], ths := [], next := 10, flagged := false, markers := [], ackDel := [], orphaned := false, stopped := none }, line)
+    ({ d with s := init [], gens := [], fileV := [], ths := [], next := 10, flagged := false, markers := [], ackDel := [], orphaned := false, stopped := none, deadDelete := false }, line)
   | ["set", k, v] =>
     let t := d.next
     match acts d (summonActs d t) with
@@ -187,6 +223,22 @@ def step (d : DSt) (line : String) : DSt × String :=
     | some d1 =>
       let t : Th := { name := n, id := idOf n, kind := "set", key := k, val := v, stage := "summoned", gen := (d1.s.th (idOf n)).gen }
       ({ d1 with ths := d1.ths ++ [t] }, s!"{n}@gw.set.summoned")
+  | ["spawn", n, "delm", k, k2] =>
+    -- one Delete request with two keys; the first one is the last record (the corpus makes sure of that)
+    if d.ths.any (·.name == n) then (d, "bad-op") else
+    let tid := idOf n
+    match acts d (summonActs d tid) with
+    | none => (d, s!"{n} stuck")
+    | some d1 =>
+      let g := (d1.s.th tid).gen
+      let (d2, st) := delV d1 g k
+      match act d2 (.del tid (keyNum k)) with
+      | none => (d, "ERR")
+      | some d3 =>
+        if (d3.s.th tid).pc == 4 && !d3.s.holders.isEmpty then
+          let t : Th := { name := n, id := tid, kind := "del", key := k, val := st, stage := "draining", gen := g, key2 := k2 }
+          ({ d3 with ths := d3.ths ++ [t] }, s!"{n}@destroy.draining")
+        else (d, "bad-op")
   | ["spawn", n, "del", k] =>
     if d.ths.any (·.name == n) then (d, "bad-op") else
     if !d.s.live && d.fileV.isEmpty then (d, s!"{n} done NOT_FOUND") else
@@ -277,7 +329,8 @@ def step (d : DSt) (line : String) : DSt × String :=
         match destroyFin d t.id with
         | some d1 =>
           let (d2, fl) := flag d d1 "C16-auto-destroy-loses-acked-write"
-          (upd d2 "done", s!"{n} done {t.val}" ++ fl)
+          let (d3, st2) := delSecond d2 t
+          (upd d3 "done", s!"{n} done {t.val}{st2}" ++ fl)
         | none => (d, s!"{n} stuck")
       | _, _ => (d, "bad-op")
   | ["tick", "arm"] =>
@@ -320,7 +373,8 @@ def step (d : DSt) (line : String) : DSt × String :=
     | none => (d, "ERR")
   | ["reopen"] =>
     if d.stopped.isSome && d.stopped != some 0 then (d, "keys=?") else
-    let back := fun (x : DSt) => if (memOf x x.s.gen).any (fun r => x.ackDel.contains r.key) then "\t#F:C16-delete-after-recreate-resurrects" else ""
+    let back := fun (x : DSt) => if (memOf x x.s.gen).any (fun r => x.ackDel.contains r.key) then
+        (if x.deadDelete then "\t#F:C16-delete-continues-on-closed-instance" else "\t#F:C16-delete-after-recreate-resurrects") else ""
     if d.s.live then (d, showKeys (memOf d d.s.gen) ++ back d)
     else if d.fileV.isEmpty then (d, "keys=[]")
     else
@@ -340,7 +394,8 @@ def run (args : List String) : IO UInt32 := do
                      summonWaitsForUnmap := arg kv "summonWaitsForUnmap" != "no",
                      stopWaitsUntilClosed := arg kv "stopWaitsUntilClosed" != "no",
                      ceasesOnce := arg kv "ceasesVigilOnce" != "no" }
-  lineLoop step { cfg := cfg, s := init [], gens := [], fileV := [], ths := [], next := 10, flagged := false,
+  let dcc := arg kv "deleteRefusesClosedInstance" != "no"
+  lineLoop step { cfg := cfg, delChecksClosed := dcc, s := init [], gens := [], fileV := [], ths := [], next := 10, flagged := false,
                   recreateDropsMarker := arg kv "recreateDropsDeleteMarker" != "no", markers := [], ackDel := [] }
   return 0
 
